@@ -322,6 +322,12 @@ func (api *API) decodeStructFields(
 				return ierrors.Wrap(err, "can't read payload length from the deserializer")
 			}
 			if payloadLength == 0 {
+				// no value: a destination field that still holds one (the destination of an earlier Decode) is reset,
+				// the decoded object is a function of the bytes
+				if fieldValue.CanSet() && !fieldValue.IsZero() {
+					fieldValue.Set(reflect.Zero(fieldValue.Type()))
+				}
+
 				continue
 			}
 
@@ -453,6 +459,11 @@ func (api *API) decodeSlice(ctx context.Context, b []byte, value reflect.Value,
 
 		return deseri.Done()
 	}
+	// the decoded slice consists of the decoded elements only: what a reused destination still holds is dropped
+	// (the elements are appended below; bounds, uniqueness and must-occur are rules about the decoded elements)
+	if !value.IsNil() {
+		value.Set(reflect.Zero(valueType))
+	}
 	deserializeItem := func(b []byte) (bytesRead int, err error) {
 		elemValue := reflect.New(valueType.Elem()).Elem()
 		bytesRead, err = api.decode(ctx, b, elemValue, TypeSettings{}, opts)
@@ -503,7 +514,9 @@ func (api *API) decodeMapKVPair(ctx context.Context, b []byte, key, val reflect.
 
 func (api *API) decodeMap(ctx context.Context, b []byte, value reflect.Value,
 	valueType reflect.Type, ts TypeSettings, opts *options) (int, error) {
-	if value.IsNil() {
+	// the decoded map consists of the decoded entries only: a reused destination that still holds entries is replaced
+	// (the duplicate-key test below is about the keys of the input, the bounds about the decoded entries)
+	if value.IsNil() || value.Len() != 0 {
 		value.Set(reflect.MakeMap(valueType))
 	}
 
